@@ -5,10 +5,12 @@
    object_hook=json_decoder (bottom-up; _load_*, _attach_parent_to_exprs); [reload] = an explicit function saying what a
    reload does to a tree (docstrings cleaned again, enum-valued expression fields become strings, every name's parent
    link reset and then re-attached on the first layer of the attached slots).
-   [rep] = representation invariants of trees built by the agents.  Known gaps, all decidable:
-   [gap_lineno] [gap_filepath] [gap_memberkey] (decoding fails), [gap_doc] (re-encoding differs), [gap_expr] (an
-   expression is not restored exactly), [has_obj_doc] in full mode.  [decodable] = rep and none of the first three,
-   [wf] = decodable and not gap_doc. *)
+   [rep] = representation invariants of trees built by the agents (labels as a sorted set, member keys = names,
+   line numbers non-zero, expressions built from the regenerated dataclass table).  Known gaps, decidable:
+   [gap_doc] (re-encoding differs), [gap_expr] (a name's parent link is not restored).  [wf] = rep and not gap_doc.
+   Repaired in /repo (fix: commits), hence no longer hypotheses: line numbers may be absent, file paths may be lists or
+   None, members may be named `kind`/`cls`, lambda parameter kinds come back as ParameterKind, full-mode documents with
+   docstrings decode. *)
 From Coq Require Import List ZArith String Bool Arith.
 From Verif Require Import Lib.Sexp Gen.C08_tables Model.C08_json Proofs.C08_json.
 Import ListNotations.
@@ -21,29 +23,11 @@ Theorem C08_expr_roundtrip :
 Proof. intros e H. split; [exact (expr_roundtrip e H)|]. split; [exact (enc_reload_ev e)|]. rewrite enc_attach_top. exact (enc_reload_ev e). Qed.
 Print Assumptions C08_expr_roundtrip.
 
-(* Minimal mode, all trees outside the three decoding gaps: the document decodes, to exactly [reload t]. *)
-Theorem C08_decode_enc_min : forall t, decodable t = true -> decode (enc_min t) = Ok (PTree (reload t)).
+(* Minimal mode, every tree the agents can build (inspected or visited; regular, namespace or builtin modules): the
+   document decodes, to exactly [reload t]. *)
+Theorem C08_decode_enc_min : forall t, rep t = true -> decode (enc_min t) = Ok (PTree (reload t)).
 Proof. exact decode_enc_min. Qed.
 Print Assumptions C08_decode_enc_min.
-
-(* The three decoding gaps are exact: any tree (no hypothesis) with one of them fails to decode ... *)
-Theorem C08_gap_decode_fails :
-  forall t, (gap_lineno t || gap_filepath t || gap_memberkey t)%bool = true -> exists e, decode (enc_min t) = Err e.
-Proof. exact gap_decode_fails. Qed.
-Print Assumptions C08_gap_decode_fails.
-
-(* ... so for trees the agents can build, `decodable` is exactly "the minimal document decodes". *)
-Theorem C08_decodable_iff :
-  forall t, rep t = true -> ((exists v, decode (enc_min t) = Ok v) <-> decodable t = true).
-Proof.
-  intros t Hrep. split.
-  - intros [v Hv]. unfold decodable. rewrite Hrep.
-    destruct (gap_lineno t || gap_filepath t || gap_memberkey t)%bool eqn:G.
-    + destruct (gap_decode_fails t G) as [e He]. congruence.
-    + apply orb_false_iff in G as [G G3]. apply orb_false_iff in G as [G1 G2]. rewrite G1, G2, G3. reflexivity.
-  - intro Hd. exists (PTree (reload t)). apply decode_enc_min. exact Hd.
-Qed.
-Print Assumptions C08_decodable_iff.
 
 (* ... and the reloaded tree serialises to the identical JSON unless a docstring is not a fixpoint of cleandoc. *)
 Theorem C08_roundtrip_min :
@@ -66,22 +50,12 @@ Print Assumptions C08_equiv_fields.
 Theorem C08_names_resolve_modulo_known :
   forall n ln eln doc ls ms fp,
   let t := TObj n ln eln doc ls ms (XModule fp) in
-  decodable t = true -> gap_doc t = false -> gap_expr t = false -> from_json (enc_min t) = Ok t.
+  rep t = true -> gap_doc t = false -> gap_expr t = false -> from_json (enc_min t) = Ok t.
 Proof.
   intros n ln eln doc ls ms fp t Hd Hg He. unfold t in *.
-  rewrite from_json_enc_min by assumption. f_equal. apply reload_identity; try assumption.
-  unfold decodable in Hd. apply andb_true_iff in Hd as [Hd _]. apply andb_true_iff in Hd as [Hd _].
-  apply andb_true_iff in Hd as [Hd _]. exact Hd.
+  rewrite from_json_enc_min by assumption. f_equal. apply reload_identity; assumption.
 Qed.
 Print Assumptions C08_names_resolve_modulo_known.
-
-(* Full mode: whatever the derived values, a tree with a docstring does not decode (each docstring has >= 1 parsed
-   section: always the case without a docstring parser; the empty case fails too, see C08_refuted_full_docstring). *)
-Theorem C08_full_docstring_not_decodable :
-  forall F, (forall path, f_parsed (F path) <> []) ->
-  forall t prefix j, has_obj_doc t = true -> enc_full F prefix t = Ok j -> exists e, decode j = Err e.
-Proof. exact full_docstring_not_decodable. Qed.
-Print Assumptions C08_full_docstring_not_decodable.
 
 (* Non-vacuity: a tree with every node kind satisfies every hypothesis and round-trips to itself. *)
 Theorem C08_example_all_kinds :
@@ -89,35 +63,27 @@ Theorem C08_example_all_kinds :
 Proof. split; [exact (proj1 example_wf)|]. split; [exact (proj2 example_wf)|exact example_roundtrip_exact]. Qed.
 Print Assumptions C08_example_all_kinds.
 
-(* ---- the known gaps are real: computed witnesses (each replayed on the implementation by the harness) *)
-Theorem C08_refuted_lineno : exists t, rep t = true /\ gap_lineno t = true /\ decode (enc_min t) = Err (EKey "lineno").
-Proof. exact refuted_lineno. Qed.
-Print Assumptions C08_refuted_lineno.
+(* ---- repaired defects: their witnesses now round-trip to themselves (objects and aliases without line numbers;
+   namespace and builtin file paths; members named kind / cls / name; lambda parameter kinds) *)
+Theorem C08_fixed_witnesses :
+  (let t := w_module [("a", w_attr "a" None); ("al", TAlias "al" "os.al" None None)] (FPStr "/x/w.py") in
+   rep t = true /\ decode (enc_min t) = Ok (PTree t)) /\
+  (let t := w_module [] (FPList ["/x/w"; "/y/w"]) in rep t = true /\ decode (enc_min t) = Ok (PTree t)) /\
+  (let t := w_module [] FPNone in rep t = true /\ decode (enc_min t) = Ok (PTree t)) /\
+  (let t := w_module [("kind", w_attr "kind" (Some 1%Z)); ("cls", w_attr "cls" (Some 2%Z)); ("name", w_attr "name" (Some 3%Z))] (FPStr "/x/w.py") in
+   rep t = true /\ decode (enc_min t) = Ok (PTree t)) /\
+  (wf_slot w_lambda = true /\ decode (enc_ev w_lambda) = Ok (PExpr w_lambda) /\ slot_restored true w_lambda = true).
+Proof.
+  split; [exact fixed_lineno|]. split; [exact (proj1 fixed_filepath)|]. split; [exact (proj2 fixed_filepath)|].
+  split; [exact fixed_memberkey|exact fixed_enum].
+Qed.
+Print Assumptions C08_fixed_witnesses.
 
-Theorem C08_refuted_filepath :
-  (exists t, rep t = true /\ gap_filepath t = true /\ decode (enc_min t) = Err EType) /\
-  (exists t, rep t = true /\ gap_filepath t = true /\ decode (enc_min t) = Err EType).
-Proof. exact refuted_filepath. Qed.
-Print Assumptions C08_refuted_filepath.
-
-Theorem C08_refuted_memberkey_kind : exists t, rep t = true /\ gap_memberkey t = true /\ decode (enc_min t) = Err (EKey "name").
-Proof. exact refuted_memberkey_kind. Qed.
-Print Assumptions C08_refuted_memberkey_kind.
-
-Theorem C08_refuted_memberkey_cls : exists t, rep t = true /\ gap_memberkey t = true /\ decode (enc_min t) = Err EType.
-Proof. exact refuted_memberkey_cls. Qed.
-Print Assumptions C08_refuted_memberkey_cls.
-
+(* ---- the remaining known gaps are real: computed witnesses (each replayed on the implementation by the harness) *)
 Theorem C08_refuted_docstring :
-  exists t t', decodable t = true /\ gap_doc t = true /\ decode (enc_min t) = Ok (PTree t') /\ enc_min t' <> enc_min t.
+  exists t t', rep t = true /\ gap_doc t = true /\ decode (enc_min t) = Ok (PTree t') /\ enc_min t' <> enc_min t.
 Proof. exact refuted_docstring. Qed.
 Print Assumptions C08_refuted_docstring.
-
-Theorem C08_refuted_enum :
-  wf_slot w_lambda = true /\ has_enum w_lambda = true /\
-  exists e', decode (enc_ev w_lambda) = Ok (PExpr e') /\ e' <> w_lambda /\ slot_restored true w_lambda = false.
-Proof. exact refuted_enum. Qed.
-Print Assumptions C08_refuted_enum.
 
 Theorem C08_refuted_links_depth :
   let e := ex_sub (nm "Optional") (ex_sub (nm "List") (nm "Foo")) in
@@ -143,13 +109,6 @@ Theorem C08_refuted_links_other :
   (let e := VNode "ExprAttribute" [("values", VList [VStr "'lit'"; VName "join" LStr])] in wf_slot e = true /\ slot_restored true e = false).
 Proof. exact refuted_links_other. Qed.
 Print Assumptions C08_refuted_links_other.
-
-Theorem C08_refuted_full_docstring :
-  (exists j, enc_full (w_F [mkSection "text" None (JStr "Doc.")] (Some (JStr "/x/w.py"))) "" w_fulldoc = Ok j /\ decode j = Err (EKey "name")) /\
-  (exists j, enc_full (w_F [] (Some (JStr "/x/w.py"))) "" w_fulldoc = Ok j /\ decode j = Err EType) /\
-  wf w_fulldoc = true.
-Proof. exact refuted_full_docstring. Qed.
-Print Assumptions C08_refuted_full_docstring.
 
 (* serialisation itself fails only for a builtin module in full mode *)
 Theorem C08_refuted_full_builtin :
